@@ -135,17 +135,43 @@ def run_all(ctx, tier):
                                       v, uname, compress, ra.get('ok') or '%s: %s' % (ra.get('exc'), ra.get('msg', '')[:80]), rb.get('ok') or rb.get('exc')),
                                   {'with_constant': a, 'literal': b, 'compress': compress}, confirmed=True)
     # register aliases
+    alias_programs(ctx, r, relation='transparent')
+
+
+def alias_programs(ctx, r, relation='transparent'):
+    """a constant naming a register, in regular instructions AND as operand of pseudo-instructions (whose expansions are built
+    later in the pipeline); relation 'transparent' (C11): same bytes as with the register written out, in both modes;
+    relation 'accept' (C12): whatever assembles without -c assembles with it"""
     from bounded.gen import ABI
+    forms = [lambda w: 'addi %s, %s, 1' % (w, w), lambda w: 'add x8, %s, x9' % w, lambda w: 'sw %s, 4(x2)' % w, lambda w: 'c.mv x8, %s' % w,
+             lambda w: 'lw %s, 0(x8)' % w, lambda w: 'slli %s, %s, 2' % (w, w),
+             # operands of pseudo-instructions
+             lambda w: 'mv %s, a1' % w, lambda w: 'mv a1, %s' % w, lambda w: 'li %s, 5' % w, lambda w: 'li %s, 0x12345' % w, lambda w: 'neg %s, %s' % (w, w),
+             lambda w: 'not %s, a2' % w, lambda w: 'bnez %s, here' % w, lambda w: 'beqz %s, here' % w, lambda w: 'bgt %s, a3, here' % w,
+             lambda w: 'jr %s' % w, lambda w: 'jalr %s' % w, lambda w: 'seqz a0, %s' % w]
     for i in range(32):
         for spelling in ('x%d' % i, ABI[i], str(i)):
-            for mk in (lambda w: 'addi %s, %s, 1' % (w, w), lambda w: 'add x8, %s, x9' % w, lambda w: 'sw %s, 4(x2)' % w, lambda w: 'c.mv x8, %s' % w if i else 'addi x0, x0, 0',
-                       lambda w: 'lw %s, 0(x8)' % w, lambda w: 'slli %s, %s, 2' % (w, w)):
-                a = 'W = %s\n    %s\n' % (spelling, mk('W'))
-                b = '    %s\n' % mk(spelling)
+            for mk in forms:
+                if i == 0 and mk('W').startswith('c.mv'):
+                    continue
+                a = 'W = %s\nhere:\n    %s\n' % (spelling, mk('W'))
+                b = 'here:\n    %s\n' % mk(spelling)
+                res = {}
                 for compress in (False, True):
                     ra, rb = r.assemble(a, compress=compress), r.assemble(b, compress=compress)
+                    res[compress] = ra
                     ctx.b_eval('exprs', ('alias', spelling, mk('W'), compress), nontrivial=True)
-                    if ra.get('ok') != rb.get('ok') or ra.get('exc') != rb.get('exc'):
+                    if relation == 'transparent' and (ra.get('ok') != rb.get('ok') or ra.get('exc') != rb.get('exc')):
                         ctx.violation('bounded/exprs/alias', 'alias:%s' % mk('W').split()[0],
                                       'register alias W = %s in %r (compress=%s): %s vs %s' % (spelling, mk('W'), compress, ra.get('ok') or ra.get('exc'), rb.get('ok') or rb.get('exc')),
                                       {'with_alias': a, 'literal': b, 'compress': compress}, confirmed=True)
+                if relation == 'accept' and 'ok' in res[False] and 'ok' not in res[True]:
+                    ctx.violation('bounded/exprs/accept', 'accept:alias:%s' % mk('W').split()[0],
+                                  'W = %s / %r assembles without compression but with it fails: %s: %s' % (spelling, mk('W'), res[True].get('exc'), res[True].get('msg', '')[:120]),
+                                  {'source': a}, confirmed=True)
+
+
+def alias_accept_task(ctx):
+    ctx.b_rule('alias-accept: a constant naming each of the 32 registers (3 spellings) as operand of 18 regular and pseudo-instruction forms: '
+               'a program accepted without -c is accepted with it')
+    alias_programs(ctx, real(), relation='accept')
